@@ -159,6 +159,9 @@ pub struct Event {
     pub vt: u64,
     pub kind: Ev,
     pub vc: VClock,
+    /// The thread was unwinding from a panic when it performed this
+    /// operation (e.g. a lock released by a guard dropped during unwinding).
+    pub unwinding: bool,
 }
 
 /// FNV-1a style incremental hasher used for determinism hashes and sync-order
@@ -201,7 +204,7 @@ impl Event {
     /// Feeds everything except raw addresses into the hasher.
     pub fn hash_into(&self, h: &mut Fnv) {
         h.u64(self.seq as u64);
-        h.u64(self.tid as u64);
+        h.u64(self.tid as u64 | (self.unwinding as u64) << 8);
         h.u64(self.vt);
         // Debug formatting would include addresses; normalise them away.
         let kind = match self.kind {
